@@ -79,6 +79,11 @@ var (
 	// caller adaptation field with the private-data flag set and zero-length data, multi-packet payload
 	opDataApr0 = MOp{K: "data", PID: 0x100, Len: 350, AF: "priv0"}
 	opPktAF252 = MOp{K: "pkt", Pkt: "af252"}
+	opPktStAF  = MOp{K: "pkt", Pkt: "staleaf"}
+	opPktFitPr = MOp{K: "pkt", Pkt: "fitpriv"}
+	opPktBigPr = MOp{K: "pkt", Pkt: "bigpriv"}
+	opPktFitPE = MOp{K: "pkt", Pkt: "fitpcrext"}
+	opPktBigPE = MOp{K: "pkt", Pkt: "bigpcrext"}
 	opAddMany  = MOp{K: "addmany", N: 40}
 	opRmMany   = MOp{K: "rmmany", N: 40}
 )
@@ -89,6 +94,10 @@ var muxFullAlpha = []MOp{
 	opDataB1, opDataBRAI, opDataAuto, opDataX,
 	opPktNull, opPktOwn, opPktAF, opPktShort, opPktBig, opPktStale, opPktWrap, opPktPriv0, opPktAF252, opDataApr0, opAddMany, opRmMany,
 }
+
+// caller-built packets at the size limit: exact fit and one byte too many for each way of filling the
+// adaptation field; a struct with a cleared flag and the part still attached
+var muxPktEdgeAlpha = []MOp{opPktStAF, opPktFitPr, opPktBigPr, opPktFitPE, opPktBigPE, opPktBig, opPktStale, opPktShort, opDataA1, opTables}
 
 // A smaller alphabet for deeper searches.
 var muxCoreAlpha = []MOp{
@@ -151,6 +160,7 @@ func MuxScenarios(thorough bool) []MuxScenario {
 		// too many, others overshoot by 3 and 4; a refused emission must not consume a version or a counter value
 		MuxScenario{Name: "pmt-size-boundary-p2", Period: 2, Setup: []MOp{opAddA, opPcrA, {K: "addmany", N: 31}, opTables},
 			Alpha: []MOp{opAddD, {K: "add", PID: 0x104, ST: stMeta, Desc: "sid"}, opAddC, opAddB, {K: "rm", PID: 0x103}, {K: "rm", PID: 0x104}, {K: "rm", PID: 0x102}, opRmB, opTables, opDataA1}, Depth: 4, Dedup: true},
+		MuxScenario{Name: "packet-size-edges-p2", Period: 2, Setup: setupA, Alpha: muxPktEdgeAlpha, Depth: 3, Dedup: true},
 		MuxScenario{Name: "fix-add-remove", Period: 40, Setup: setupA, Alpha: []MOp{opAddB, opRmB, opTables}, Depth: -1, Dedup: true},
 		MuxScenario{Name: "fix-readd-p1", Period: 1, Setup: setupA, Alpha: []MOp{opRmA, opAddA, opDataA1}, Depth: fixDepth, Dedup: true},
 		MuxScenario{Name: "readd-two-pids-p40", Period: 40, Setup: setupAB, Alpha: []MOp{opRmA, opAddA, opDataA1, opDataB1, opRmB, opAddB}, Depth: readdDepth, Dedup: true},
